@@ -211,14 +211,18 @@ def idle_scenario(args):
     from pynetdicom import AE
     from pynetdicom.sop_class import Verification
 
-    T, plan = args
+    T, plan = args[0], args[1]
+    late = len(args) > 2 and args[2]
     e2e.quiet()
     B = c08._bytes()
     ae = AE()
     ae.add_supported_context(Verification)
     ae.acse_timeout = ae.dimse_timeout = 30
-    ae.network_timeout = T
+    # late: the server is started under a much shorter network timeout, which is raised to T before the peer connects -
+    # the timeout in force when the association is accepted is what bounds the gaps
+    ae.network_timeout = T / 5.0 if late else T
     srv = ae.start_server(("127.0.0.1", 0), block=False)
+    ae.network_timeout = T
     s = socket.create_connection(("127.0.0.1", srv.socket.getsockname()[1]))
     s.settimeout(3 * T + 2)
     out = {"answers": [], "aborted": False}
@@ -352,11 +356,14 @@ def idle_check(ctx):
         plans.append(plan)
     pool = mp.get_context("fork").Pool(processes=6, maxtasksperchild=4, initializer=_e2e_exit.no_join_at_exit)
     try:
-        results = pool.map(idle_scenario, [(T, p) for p in plans])
+        # the three fixed plans once more with the network timeout raised to T only after start_server
+        lates = [False] * len(plans) + [True, True, True]
+        plans = plans + plans[:3]
+        results = pool.map(idle_scenario, [(T, p, l) for p, l in zip(plans, lates)])
         # a plan that went wrong is run once more, alone (gaps of 0.8 T leave little room on a busy machine)
         for i, r in enumerate(results):
             if "error" in r or r.get("aborted"):
-                results[i] = pool.apply(idle_scenario, ((2 * T, plans[i]),))
+                results[i] = pool.apply(idle_scenario, ((2 * T, plans[i], lates[i]),))
     finally:
         pool.terminate()
         pool.join()
@@ -378,10 +385,10 @@ def idle_check(ctx):
                      f"{job[1]:.1f} s apart (cut at byte {job[2]}): {r}", case)
     policy = "perChunk" if tr_timeouts.extract_idle() else "perPdu"
     model = ctx.lean([["idle.aborted", policy, 10, [[g, l] for g, l in p]] for p in plans])
-    for plan, r, m in zip(plans, results, model):
-        case = ["idle", plan]
+    for plan, late, r, m in zip(plans, lates, results, model):
+        case = ["idle", plan] + (["timeout-raised-after-start_server"] if late else [])
         total = sum(g for g, _ in plan)
-        ctx.case(case, nontrivial=total > 10, kind="idle:" + ("over-T-in-total" if total > 10 else "short"))
+        ctx.case(case, nontrivial=total > 10, kind="idle:" + ("over-T-in-total" if total > 10 else "short") + (":late-timeout" if late else ""))
         if "error" in r:
             ctx.diff(case, r, "n/a", "idle scenario failed")
             continue
@@ -502,7 +509,7 @@ def replay(ctx, case):
         print(r)
         return 0 if r.get("established") and r.get("echo") == 0 else 1
     if c[0] == "idle":
-        r = idle_scenario((1.0, c[1]))
+        r = idle_scenario((1.0, c[1], len(c) > 2))
         print(r)
         return 1 if r.get("aborted") else 0
     stream = bytes.fromhex(c[1][1:]) if isinstance(c[1], str) else c[1]
